@@ -432,6 +432,11 @@ class Engine:
             return self.resolve(st, frame, place[1]) + (("f", place[2]),)
         if k == "index":
             iv = frame.locals.get(place[2])
+            if isinstance(iv, Int):
+                c = z3.simplify(iv.e)
+                if z3.is_bv_value(c):
+                    # a constant index is an ordinary field position (arrays are aggregates)
+                    return self.resolve(st, frame, place[1]) + (("f", c.as_long()),)
             return self.resolve(st, frame, place[1]) + (("i", iv),)
         raise Unsupported("place %r" % (place,))
 
@@ -467,10 +472,9 @@ class Engine:
         if addr[0] == "S":
             if len(addr) == 3 and addr[2][0] == "i":
                 from . import stubs as _S
-                arr, n = _S.table_u8(self, addr[1])
                 iv = addr[2][1]
                 ie = iv.e if iv.width == 64 else z3.ZeroExt(64 - iv.width, iv.e)
-                return Int(z3.Select(arr, ie), "u8")
+                return Int(_S.table_u8_select(self, addr[1], ie), "u8")
             return self.static_value(addr[1])
         if addr[0] == "V":
             v = addr[1]
